@@ -14,8 +14,8 @@ EXPLANATION = ('Const-evaluated relations (read from the compiler, not copied): 
                'pairwise distinct; the usize->u16 narrowing of the size word in overwrite_chain happens only on the edge where the remainder fits the entry; '
                'an existing value is overwritten in place only when the new value lands in the same size tier (a chained value replaced by a small one must '
                'be removed and re-inserted, else it is written without its MULTIHEAD marker).')
-EXPLANATION += ' Added: a value that may be chained is read through one locked overlay view (known finding F32, 8 sites); next-part links carry no order (no ordering test between a link and a slot position).'
-ASSUMPTIONS = ['DECLINED: chain reuse/trim logic, compression round trip, release of old storage', 'legacy (db_version <= 4) markers are not part of the disjointness check', 'unwind edges ignored']
+EXPLANATION += ' Added: a value that may be chained is read through one locked overlay view (known finding F32, 8 sites); next-part links carry no order (no ordering test between a link and a slot position). Release and reuse of storage (7a-7g: old entry released before a value moves to another size class, every walked part freed, a shorter value frees the tail, a freed slot is linked to the previous free-list head and becomes the head, next_free advances the head to the stored link and grows the table only when the list is empty, the in-memory mirror of multitree tables moves in step). The compressed flag is true exactly for bytes from the compressor and decompress runs exactly on its true edge (8a, 8b).'
+ASSUMPTIONS = ['not decided: which slot numbers and byte ranges the chain writer uses, the codecs (lz4 / snappy round trip), which tier a length maps to; the release / reuse protocol (7a-7g) and the agreement of the compressed flag with the bytes (8a, 8b) are decided as path and provenance facts', 'legacy (db_version <= 4) markers are not part of the disjointness check', 'unwind edges ignored']
 TRUSTED = ['rustc const evaluation + MIR construction (nightly)', 'pdb-facts driver', 'rule engine /verif/rules']
 
 
@@ -248,7 +248,111 @@ def run(ctx):
     # 7g the in-memory mirror of the free list (multitree tables) moves in step with the head
     shared.free_list_mirror_in_step(ctx, '7g')
 
+    # 8. compression round trip, as far as it is in the shape of the code: the flag stored with an entry says what the bytes are
+    compression_flag(ctx, F)
 
 def _err_return(body, bi, errs):
     return False
 
+
+
+def compression_flag(ctx, F):
+    """Writer: the `compressed` flag handed to the table with the bytes of a value is true exactly for bytes that came out of the
+    compressor. The (bytes, flag) pairs are built in the planner (`(cval.as_slice(), true)` / `(val, false)`, as tuples, possibly in
+    a closure or in match arms): a pair with a true flag holds bytes derived from Column::compress, a pair with a false flag holds
+    bytes that are not. Reader: Compress::decompress is applied exactly on the true edge of a test of the flag that the table read
+    returned together with the bytes. The codecs themselves (lz4 / snappy round trip) are not decided."""
+    WR = ['table::ValueTable::write_insert_plan', 'table::ValueTable::write_replace_plan']
+    CMP = 'column::Column::compress'
+    npairs = 0
+    nsites = 0
+    for fn in ('column::Column::write_new_value_plan', 'column::Column::write_existing_value_plan'):
+        b = ctx.body(fn)
+        if not b:
+            continue
+        for s_ in sorted(b.call_sites(*WR)):
+            t = b.term(s_)
+            flag = [a for a in t['a'] if op_place(a) is not None and str(b.locals[op_place(a)[0]]) == 'bool' and len(op_place(a)) == 1]
+            byts = [a for a in t['a'] if op_place(a) is not None and str(b.locals[op_place(a)[0]]) == '&[u8]' and len(op_place(a)) == 1]
+            if not flag or not byts:
+                # a constant flag: `false` with raw bytes is fine, `true` never is
+                cflag = [lib.const_of(b, a) for a in t['a'] if op_place(a) is None]
+                ctx.ob('8a flag-names-the-bytes %s @%s' % (fn, nsites), 'K9-agreement', fn, 'a constant compressed flag is false', 1 not in cflag, str(cflag), b.loc(s_))
+                nsites += 1
+                continue
+            nsites += 1
+            slf = backward_slice(b, [op_place(flag[0])])
+            slb = backward_slice(b, [op_place(byts[0])])
+            pairs = []       # (flag const, bytes come from the compressor)
+            # pairs built in this body
+            for l in slf.locals:
+                for d in b.defs().get(l, []):
+                    if d[2] == 'assign' and d[3]['r']['k'] == 'agg' and d[3]['r']['ak'] == 'Tuple' and len(d[3]['r']['a']) == 2:
+                        c = lib.const_of(b, d[3]['r']['a'][1])
+                        bp = op_place(d[3]['r']['a'][0])
+                        if c in (0, 1) and bp is not None:
+                            pairs.append((c, CMP in backward_slice(b, [bp]).calls, b.loc(d[0])))
+            # pairs built in a closure that maps the compressor's Option
+            for (cb_, ct) in slf.call_sites:
+                for a in ct['a']:
+                    if op_place(a) is None:
+                        continue
+                    for d in b.defs().get(op_place(a)[0], []):
+                        if d[2] == 'assign' and d[3]['r']['k'] == 'agg' and str(d[3]['r'].get('ak', '')).startswith('Closure:'):
+                            cl = F.body(d[3]['r']['ak'][8:])
+                            recv = backward_slice(b, [op_place(ct['a'][0])]) if op_place(ct['a'][0]) is not None else None
+                            fed = bool(recv) and CMP in recv.calls
+                            if cl is None:
+                                continue
+                            for bi2 in cl.normal_blocks():
+                                for st2 in cl.blocks[bi2]['s']:
+                                    if st2['k'] == 'assign' and st2['r']['k'] == 'agg' and st2['r']['ak'] == 'Tuple' and len(st2['r']['a']) == 2:
+                                        c = lib.const_of(cl, st2['r']['a'][1])
+                                        bp = op_place(st2['r']['a'][0])
+                                        if c in (0, 1) and bp is not None:
+                                            from_param = bool(backward_slice(cl, [bp]).params - {1})
+                                            pairs.append((c, fed and from_param, cl.loc(bi2)))
+            if pairs:
+                npairs += len(pairs)
+                bad = [(c, fc, loc) for (c, fc, loc) in pairs if bool(c) != bool(fc)]
+                ctx.ob('8a flag-names-the-bytes %s @%s' % (fn, nsites - 1), 'K9-agreement', fn,
+                       'every (bytes, flag) pair that reaches the table write has flag == true exactly when the bytes derive from Column::compress', not bad and len(pairs) >= 2,
+                       'pairs (flag, from compressor, where): %s' % pairs, b.loc(s_))
+            else:
+                # flag computed from the Option (`cval.is_some()`): accepted when bytes and flag derive from the same compress call
+                ok = any(re.search(r'Option::<.*>::is_some$', c) for c in slf.calls) and CMP in slf.calls and CMP in slb.calls
+                ctx.ob('8a flag-names-the-bytes %s @%s' % (fn, nsites - 1), 'K9-agreement', fn,
+                       'the flag is `is_some()` of the compressor\'s result and the bytes come from the same result', ok, 'no (bytes, flag) pair found; flag calls %s' % sorted(slf.calls)[:6], b.loc(s_))
+    ctx.ob('8a0 flagged-writes', 'anchor', '-', 'the table writes of the value planners that pass a compressed flag were found', nsites >= 3, 'sites %d, pairs %d' % (nsites, npairs))
+    # reader side
+    nd = 0
+    for b in sorted(F.bodies.values(), key=lambda x: x.path):
+        if b.path.startswith('compress::'):
+            continue
+        for d_ in b.call_sites('compress::Compress::decompress'):
+            if d_ not in b.normal_blocks():
+                continue
+            nd += 1
+            ok = False
+            why = 'no test of a compressed flag controls the call'
+            for (sw, yes, no) in b.control_deps(d_):
+                t = b.term(sw)
+                if t['k'] != 'switch' or t['vals'] != [0] or len(t['ts']) != 2:
+                    continue
+                fl = op_place(t['a'])
+                if fl is None or str(b.locals[fl[0]]) != 'bool':
+                    continue
+                r = lib.root_local(b, t['a'])
+                neg = False
+                dd = lib.switch_def(b, sw)
+                if dd and dd[2] == 'assign' and dd[3]['r']['k'] == 'un' and dd[3]['r']['op'] == 'Not':
+                    neg = True
+                on_true = (t['ts'][1] in yes and t['ts'][0] in no) != neg
+                # where the flag comes from: a parameter (closure of a table walk) or a field of a table read's result
+                slf = backward_slice(b, [fl])
+                src_ok = (r is not None and 1 <= r <= b.argc) or any(re.search(r'ValueTable::(query|get_with_meta|get|size|iter_while)$|::next$', c) for c in slf.calls)
+                if src_ok:
+                    ok = on_true
+                    why = '' if on_true else 'decompress sits on the FALSE edge of the flag'
+            ctx.ob('8b decompress-iff-flag %s #%d' % (b.path, nd), 'K3-guard', b.path, 'Compress::decompress is called on the true edge of the compressed flag returned with the bytes', ok, why, b.loc(d_))
+    ctx.ob('8b0 decompress-sites', 'anchor', '-', 'the decompression sites outside the compress module were found', nd >= 4, 'found %d' % nd)
